@@ -65,12 +65,16 @@ def drive_worker(chain, messages):
 
 
 def exchange_via_worker(ch_a, ch_b):
-    """What ParallelTempering.swap does on an accepted pair, through the real worker code."""
-    (pos_a, prob_a), = drive_worker(ch_a, [{"task": "send_position"}])
-    (pos_b, prob_b), = drive_worker(ch_b, [{"task": "send_position"}])
-    La, Lb = prob_a / ch_a.inv_temp, prob_b / ch_b.inv_temp
-    drive_worker(ch_a, [{"task": "update_position", "position": pos_b, "probability": Lb}])
-    drive_worker(ch_b, [{"task": "update_position", "position": pos_a, "probability": La}])
+    """An exchange round of the REAL ParallelTempering.swap() between the two chains, with the
+    real worker loop serving the messages (lib/pt_inproc.py); the swap draw is tiny, so the
+    exchange is accepted unless its probability is essentially zero."""
+    from lib import pt_inproc
+    from lib.scripted import ScriptedRNG
+    prng = ScriptedRNG(7)
+    prng.uniform_hook = lambda: 2.0 ** -40
+    pt = pt_inproc.make_pt([ch_a, ch_b], prng, lambda seq: prng.choice(seq))
+    pt.swap()
+    return int(pt.successful_swaps.sum())
 
 
 # --------------------------------------------------------------- oracle helpers
@@ -116,8 +120,8 @@ def post_ops(r, ch, kind, cfg, partner):
                 ch.advance(m)
                 ops.append(f"advance({m})")
             elif u < 0.7 and kind != "ensemble" and partner is not None:
-                exchange_via_worker(ch, partner)
-                ops.append("exchange")
+                done = exchange_via_worker(ch, partner)
+                ops.append("exchange" if done else "exchange(rejected)")
             elif kind != "ensemble":
                 ch.take_step()
                 ops.append("take_step")
